@@ -591,7 +591,7 @@ def hello_frames(login=False):
     return [H(HELLO)] + ([H(CONNECT)] if login else [])
 
 
-def window_stories():
+def window_stories(prop=None):
     """Hand-picked windows: same-turn orders, closes inside connect phases, trailing frames, failing writes."""
     out = []
 
@@ -725,6 +725,25 @@ def window_stories():
     story(est + [("data", [H(SENSOR_STATE, valid=0)])])
     story(est + subs + [("data", [H(SENSOR_STATE, valid=0), H(SWITCH_STATE, tag=1)])])
     story(est + [("data", [H(PING_REQ), H(TIME_REQ), H(DISC_REQ)])])
+    # the device's goodbye followed in the same read by bytes that are no frame: the goodbye was first
+    for junk in (0, 1):
+        story(est + [("data", [H(DISC_REQ), ("bp", junk)])])
+        story(est + subs + [("data", [H(SWITCH_STATE, tag=1), H(DISC_REQ), ("bp", junk)])])
+    # a call that has come and gone, a stray message of its response type while nobody waits, then the same call again - answered at once
+    DIRESP = CALLS[0][2][0]
+    story(est + [CALLS[0], ("drain",), ("data", [H(DIRESP)]), ("drain",), ("data", [H(DIRESP)]), ("drain",), CALLS[0], ("drain",), ("data", [H(DIRESP)]), ("drain",)])
+    story(est + [CALLS[1], ("drain",), ("adv_next",), ("drain",), ("data", [H(GR, tag=3)]), ("drain",), CALLS[1], ("drain",), ("data", [H(GR, tag=3)]), ("drain",)],
+          keepalive=40960)
+    story(est + [CALLS[1], ("drain",), ("cancel", "C1"), ("drain",), ("data", [H(GR, tag=3)]), ("drain",), CALLS[1], ("drain",), ("data", [H(GR, tag=3)]), ("drain",)])
+    # two plain requests for the same response type outstanding (one through each entry point), both answers in one read
+    story(est + [CALLS[0], CALLS[0], ("drain",), ("data", [H(DIRESP), H(DIRESP)]), ("drain",)])
+    story(est + [CALLS[0], CALLS[0], CALLS[1], ("drain",), ("hop", 0, ("data", [H(DIRESP), H(DIRESP)])), ("hop", 0, ("cancel", "C2")), ("drain",),
+                 ("data", [H(GR, tag=3)]), ("drain",)])
+    if prop == "C12":
+        # an undecodable payload of EVERY declared type closes the connection with a protocol error, subscriber or not
+        from aioesphomeapi.core import MESSAGE_TYPE_TO_PROTO
+        for ty in sorted(MESSAGE_TYPE_TO_PROTO):
+            story(est + subs + [("data", [H(ty, valid=0), H(SWITCH_STATE, tag=1)])])
     return out
 
 
@@ -815,7 +834,7 @@ def run(rep, tier, seed, prop, vfile, rule):
     corpus = common.VERIF / "corpus" / "conn.json"
     if corpus.exists():
         stories += [("corpus", story_from_json(d)) for d in json.loads(corpus.read_text())]
-    stories += [("window", s) for s in window_stories()]
+    stories += [("window", s) for s in window_stories(prop)]
     if tier == "thorough":
         stories += [("systematic", s) for s in systematic_stories(rng, 4)]
     n = 600 if tier == "quick" else 6000
